@@ -14,6 +14,7 @@ LEVEL_TEXT = (
     "decorator manager it acquired has been released, in both subsystems; the temporary manager resolves its future "
     "only after stopping; the 'timeout' and 'none' results exist on the paths the statement names"
     "; a manager stopped while its start loop is still running starts no further trigger; the state subscription is released for every entity whatever the name order; legacy wait_until satisfies the hold clauses on scripted histories and the new one returns the first event's arguments on both expiry paths"
+    "; every given timeout (0 included) creates the timeout trigger; 'none' only when a time trigger is the only condition; stop() arriving at any point of a trigger decorator's start() releases exactly what was acquired; the dictionary a wait returns is its own copy"
 )
 LEVEL_NOTE = (
     "assumes: any call outside the reviewed no-raise table may raise, any await may be cancelled; notify_del functions are "
